@@ -25,6 +25,9 @@ CAP_FUNCS = ["spifconf_find_file", "spifconf_open_file", "spiftool_temp_file", "
              "spifconf_register_builtin", "spifconf_register_context", "spifconf_register_fstate", "spifconf_register_context_state"]
 
 
+STRICT_FUNCS = {"builtin_dirscan", "builtin_exec", "spifconf_find_file", "spiftool_temp_file"}
+
+
 class ConfCap(Cap):
     def no_inline(self, fn):
         # helpers of other units are not interpreted, except the small string/file tools (spiftool_*) that store through a
@@ -50,8 +53,14 @@ def run(tier="quick"):
         raise facts.AnalysisBroken("conf.c not analysed")
     nw = R.check_wrap(chk, u)
     fns = [prog.fn(n) for n in CAP_FUNCS if prog.fn(n) is not None]
-    n, nund, samples = run_cap(chk, prog, fns, rule="B1", noreturn=NORETURN, cap_factory=lambda p: ConfCap(p, noreturn=NORETURN),
-                               kinds={"lower", "upper", "null", "count", "cursor", "freed", "uninit", "badfree"})
+    # the functions that build text in a fixed buffer have every bound proven on the reviewed tree: for them a bound that can no
+    # longer be established (an accumulation loop whose room test stopped matching what is appended) is reported (strict)
+    kinds_ = {"lower", "upper", "null", "count", "cursor", "freed", "uninit", "badfree"}
+    n, nund, samples = run_cap(chk, prog, [g_ for g_ in fns if g_.name not in STRICT_FUNCS], rule="B1", noreturn=NORETURN,
+                               cap_factory=lambda p: ConfCap(p, noreturn=NORETURN), kinds=kinds_)
+    n_s, nund_s, samples_s = run_cap(chk, prog, [g_ for g_ in fns if g_.name in STRICT_FUNCS], rule="B1", noreturn=NORETURN, strict=True,
+                                     cap_factory=lambda p: ConfCap(p, noreturn=NORETURN), kinds=kinds_)
+    n, nund, samples = n + n_s, nund + nund_s, samples + samples_s
     nsp = R.check_spawn(chk, prog, {"builtin_exec": None, "spifconf_parse_line": "preproc"})
     nex = R.check_exec_reachability(chk, prog, u)
     R.check_tempfile(chk, prog)
